@@ -40,7 +40,7 @@ RULES = {
     "C15-A1": "the border extraction functions only read the mesh: no container of the mesh (boundary_vertices, edges, ...) is popped, "
               "appended to, sorted, cleared or assigned into, directly or through a local alias",
     "C15-W1": "border walk orientation: the first step leaves through the head of the sorted neighbour list and the choice loop scans forward "
-              "with first match (or tail / backward), so that the chosen neighbour is joined by a border edge; skeleton: next vertex = first neighbour that is on the border and differs from the previous vertex, "
+              "with first match (or tail / backward; never an arbitrary element of an unordered set), so that the chosen neighbour is joined by a border edge; skeleton: next vertex = first neighbour that is on the border and differs from the previous vertex, "
               "(previous, current) advance together, the walk stops on return to the start, each step records the vertex and the "
               "edge (previous, current), the closing edge is appended",
     "C15-G1": "quantities the detector derives from the vertex positions are recomputed on every run: an attribute the detector reuses when "
@@ -1454,6 +1454,13 @@ def a1_readonly(ctx):
 
 
 # =========================================================================== the walk
+def _unwrap_collection(e):
+    """X of set(X) / frozenset(X) / list(X) / tuple(X): the same elements as far as membership goes"""
+    while isinstance(e, ast.Call) and isinstance(e.func, ast.Name) and e.func.id in ("set", "frozenset", "list", "tuple") and len(e.args) == 1 and not e.keywords:
+        e = e.args[0]
+    return e
+
+
 def w1_walk(ctx):
     fn0 = ctx.repo.func(BORD, "extract_border_cycle")
     site = ctx.site(BORD, fn0)
@@ -1499,7 +1506,7 @@ def w1_walk(ctx):
                 n = H.name("same_as_current")
                 return n if isinstance(x.ops[0], ast.Eq) else ast.UnaryOp(op=ast.Not(), operand=n)
         if isinstance(x, ast.Compare) and len(x.ops) == 1 and isinstance(x.ops[0], (ast.In, ast.NotIn)) and H.is_name(x.left, cand) \
-                and au.src(x.comparators[0]) == f"{mesh}.boundary_vertices":
+                and au.src(_unwrap_collection(x.comparators[0])) == f"{mesh}.boundary_vertices":
             n = H.name("border")
             return n if isinstance(x.ops[0], ast.In) else ast.UnaryOp(op=ast.Not(), operand=n)
         return None
